@@ -361,7 +361,7 @@ func qsWrite(cfg *QSConfig, run *ev.Run, in *drv.Inst, backend string, model *m.
 			op := m.Op{K: kind, Q: q}
 			switch kind {
 			case "update":
-				op.Set = map[string]interface{}{"u": int64(1), "y": "upd"}
+				op.Set = map[string]interface{}{"u": int64(1), "y": "upd", "n.a": int64(42)}
 			case "updateFunc":
 				op.Upd = &m.Updater{Set: map[string]interface{}{"u": int64(2), "x": int64(7)}, Style: "inplace"}
 			}
@@ -379,6 +379,18 @@ func qsWrite(cfg *QSConfig, run *ev.Run, in *drv.Inst, backend string, model *m.
 					fs = append(fs, Finding{Tag: "state", Msg: fmt.Sprintf("after %s: %v", kind, err)})
 				}
 				run.Distinct("results", kind+":"+resultSig(all, docs))
+				// and every index of the twin must still answer like a scan (a stale or missing entry shows here)
+				for _, f := range tw.Indexes {
+					iq := &m.Q{Coll: tw.Name, Sort: []m.SortOpt{{Field: f, Dir: 1}}}
+					idocs, ierr, ipan := drv.FindAllMaps(in, iq)
+					if ipan != nil {
+						fs = append(fs, Finding{Tag: "panic", Msg: fmt.Sprintf("sorted FindAll after %s panicked: %v", kind, ipan)})
+					} else if ierr != nil {
+						fs = append(fs, Finding{Tag: "state", Msg: fmt.Sprintf("after %s, a query through the index on %s failed: %v", kind, f, ierr)})
+					} else if err := next.CheckFind(iq, idocs); err != nil {
+						fs = append(fs, Finding{Tag: "state", Msg: fmt.Sprintf("after %s, a query through the index on %s: %v", kind, f, err)})
+					}
+				}
 			}
 			cur = next
 			if ti == 0 && len(fs) > 0 {
